@@ -252,7 +252,9 @@ int main(int argc, char** argv) {
             g_cursors.clear();
             g_sessions.clear();
             fin();
-            r << "ok";
+            // everything the library allocated (nodes, values: the aligned allocations) must be gone
+            if (vh::ledger().n_aligned == 0) r << "ok";
+            else r << "ok LEAK " << vh::ledger().n_aligned << " blocks " << vh::ledger().bytes_aligned << " bytes still allocated after fin()";
         } else if (op == "destroy") {
             r << st(destroy());
         } else if (op == "create" && w.size() == 2) {
